@@ -206,7 +206,10 @@ ArriveRes(m, t) == IF RejectSeenIds /\ t \in seen[m] THEN [r |-> "refused", node
                         IF l.r = "found" /\ l.addr THEN [r |-> "forward", node |-> l.node] ELSE [r |-> "refused", node |-> "-"]
 Arrive(m, t) ==
   /\ Mode = "arrive" /\ up[m]
-  /\ rec[t].ttl > 0 => rec[t].node # m         \* arrivals at the source node itself take the local-bridge path (not modelled)
+  \* driven only while a record is there (an arrival for an unknown id polls the routing table for
+  \* 10 s - "the target came first" - before it is refused), and not at the source node itself
+  \* (local-bridge path, not modelled); ArriveExact covers the other cases as a state predicate
+  /\ rec[t].ttl > 0 /\ rec[t].node # m
   /\ held' = IF ArriveRes(m, t).r = "forward" THEN [held EXCEPT ![t] = @ \cup {m}] ELSE held
   /\ dev' = IF RejectSeenIds /\ t \in seen[m] /\ Waiting(t) THEN [dev EXCEPT ![t] = @ \cup {"refusedReused"}] ELSE dev
   /\ UNCHANGED <<rec, addr, bridge, flight, rmpend, nreg, clock, stale, pe, lkWrote, up, seen>>
@@ -316,7 +319,7 @@ ArriveExact == \A t \in Tunnels, m \in Nodes :
                     IF Waiting(t) THEN ArriveRes(m, t) = [r |-> "forward", node |-> bridge[t].node]
                     ELSE (Settled(t) \/ Lapsed(t)) => ArriveRes(m, t).r = "refused"
 ArriveExactOrDev == \A t \in Tunnels, m \in Nodes :
-                 (up[m] /\ (rec[t].ttl > 0 => rec[t].node # m) /\ dev[t] = {}) =>
+                 (up[m] /\ (rec[t].ttl > 0 => rec[t].node # m) /\ dev[t] = {} /\ ~(RejectSeenIds /\ t \in seen[m])) =>   \* "refusedReused"
                     IF Waiting(t) THEN ArriveRes(m, t) = [r |-> "forward", node |-> bridge[t].node]
                     ELSE (Settled(t) \/ Lapsed(t)) => ArriveRes(m, t).r = "refused"
 NoDev           == \A t \in Tunnels : dev[t] = {}
